@@ -334,6 +334,9 @@ pub struct Server {
 
     /// Prepared statement being currently registered on the server.
     registering_prepared_statement: VecDeque<String>,
+
+    /// Prepared statements evicted from the cache that still have to be closed on the server.
+    evicted_prepared_statements: Vec<String>,
 }
 
 impl Server {
@@ -837,6 +840,7 @@ impl Server {
                             )),
                         },
                         registering_prepared_statement: VecDeque::new(),
+                        evicted_prepared_statements: Vec::new(),
                     };
 
                     return Ok(server);
@@ -1131,7 +1135,23 @@ impl Server {
             None => return false,
         };
 
-        let has_it = cache.get(name).is_some();
+        let mut has_it = cache.get(name).is_some();
+
+        // Evicted, but not closed on the server yet: take it back instead of preparing it twice.
+        if !has_it {
+            if let Some(position) = self
+                .evicted_prepared_statements
+                .iter()
+                .position(|evicted| evicted == name)
+            {
+                self.evicted_prepared_statements.remove(position);
+                if let Some(evicted_name) = self.add_prepared_statement_to_cache(name) {
+                    self.evicted_prepared_statements.push(evicted_name);
+                }
+                has_it = true;
+            }
+        }
+
         if has_it {
             self.stats.prepared_cache_hit();
         } else {
@@ -1189,15 +1209,15 @@ impl Server {
                 bytes.extend_from_slice(&parse_bytes);
             }
 
-            // If we evict something, we need to close it on the server
-            // We do this by adding it to the messages we're sending to the server before the sync
+            // If we evict something, we need to close it on the server. Not right now: messages
+            // the client has buffered ahead of this one may still use it. It is closed once the
+            // client's batch is through, see `close_evicted_prepared_statements`.
             if let Some(evicted_name) = self.add_prepared_statement_to_cache(&parse.name) {
                 self.remove_prepared_statement_from_cache(&evicted_name);
-                let close_bytes: BytesMut = Close::new(&evicted_name).try_into()?;
-                bytes.extend_from_slice(&close_bytes);
+                self.evicted_prepared_statements.push(evicted_name);
             };
 
-            // If we have a parse or close we need to send to the server, send them and sync
+            // If we have a parse we need to send to the server, send it and sync
             if !bytes.is_empty() {
                 bytes.extend_from_slice(&sync());
 
@@ -1220,6 +1240,35 @@ impl Server {
         } else {
             Ok(())
         }
+    }
+
+    /// Close the prepared statements evicted from the cache on the server.
+    /// Call it between batches only: nothing sent afterwards may refer to them.
+    pub async fn close_evicted_prepared_statements(&mut self) -> Result<(), Error> {
+        if self.evicted_prepared_statements.is_empty() || self.in_copy_mode() {
+            return Ok(());
+        }
+
+        let mut bytes = BytesMut::new();
+
+        for evicted_name in self.evicted_prepared_statements.drain(..) {
+            let close_bytes: BytesMut = Close::new(&evicted_name).try_into()?;
+            bytes.extend_from_slice(&close_bytes);
+        }
+
+        bytes.extend_from_slice(&sync());
+
+        self.send(&bytes).await?;
+
+        loop {
+            self.recv(None).await?;
+
+            if !self.is_data_available() {
+                break;
+            }
+        }
+
+        Ok(())
     }
 
     /// If the server is still inside a transaction.
@@ -1360,11 +1409,14 @@ impl Server {
                 if let Some(cache) = &mut self.prepared_statement_cache {
                     cache.clear();
                 }
+                self.evicted_prepared_statements.clear();
             };
 
             self.query(&reset_string).await?;
             self.cleanup_state.reset();
         }
+
+        self.close_evicted_prepared_statements().await?;
 
         if self.in_copy_mode() {
             warn!(target: "pgcat::server::cleanup", "Server returned while still in copy-mode");
